@@ -1,15 +1,18 @@
 /-
   Oracle commands for C17 (streaming / non-streaming / OpenAI-compatible responses).
 
-    run <variant> <ep> <stream 0|1> <raw 0|1> <tools 0|1> <usage 0|1> <hist 0|1> <promptLen> <fault> <end> <chunks> <parse>
+    run <variant> <ep> <stream 0|1> <raw 0|1> <tools 0|1> <usage 0|1> <hist 0|1> <promptLen> <fault> <end> <chunks> <parse> <climit> <lens>
       variant: bit 0 = F17a/b repaired (ChatHandler tools), bit 1 = F17c repaired (openai stream errors),
-               bit 2 = F17b alone (non-stream call numbering), bit 3 = F17d repaired (run without done -> error)
+               bit 2 = F17b alone (non-stream call numbering), bit 3 = F17d repaired (run without done -> error),
+               bit 4 = F17e repaired (api.Client returns the scanner's error)
       hist   : generate: the request supplies `context`; chat: the conversation has more than one message
       fault  : none | load:<hex> | detok:<hex> | tok:<hex>   (runner method failing outside Completion)
       ep     : gen | chat | oachat | oacmpl | cgen | cchat
       end    : ok | err:<hex>                         (return value of Completion)
       chunks : <n> {contenthex done reason pec ec}*   (what the runner hands to the callback)
       parse  : <n> {keyhex <k> {namehex argshex}*}*   (observed values of the real parseToolCalls)
+      climit : the client's scanner limit; lens : <n> {len}* wire length of every line handed to api.Client (0 0 for raw views)
+      byte strings on input: `-` | seg{+seg}, seg = hex | z<count>x<hexunit>; on output: hex, or #<len>:<fnv1a64> beyond 1024 bytes
     -> <status> <event>*            (raw HTTP view)   |   <msg>* ; <ok | err:<hex>>   (api.Client view)
 -/
 import OllamaVerif.Model.Stream
@@ -17,8 +20,35 @@ import Oracle.Util
 namespace Oracle.C17
 open OllamaVerif OllamaVerif.Stream Oracle
 
+/-- FNV-1a (64 bit) of a byte string -/
+def fnv (bs : Bytes) : UInt64 :=
+  bs.foldl (fun h b => (h ^^^ b.toUInt64) * 1099511628211) 14695981039346656037
+
+/-- output rendering of a byte string: hex, or `#<length>:<fnv>` beyond 1024 bytes (the driver
+    renders the same way) -/
+def hexL (bs : Bytes) : String :=
+  if bs.length > 1024 then s!"#{bs.length}:{(fnv bs).toNat}" else hexOrDash bs
+
+/-- compact input encoding of a byte string: `-` | segment{+segment}, segment = hex | z<count>x<hex>
+    (the hex unit repeated count times) -/
+def unseg (t : String) : Option Bytes :=
+  if t.startsWith "z" then
+    match (t.drop 1).toString.splitOn "x" with
+    | [n, h] => match n.toNat?, unhex h with
+      | some k, some u => some (List.replicate k u).flatten
+      | _, _ => none
+    | _ => none
+  else unhex t
+
+def cbytes : TP Bytes := do
+  let t ← tok
+  if t == "-" then pure []
+  else match (t.splitOn "+").mapM unseg with
+    | some parts => pure parts.flatten
+    | none => failure
+
 def pChunk : TP Chunk := do
-  let content ← hex
+  let content ← cbytes
   let done ← nat
   let reason ← nat
   let pec ← nat
@@ -27,11 +57,11 @@ def pChunk : TP Chunk := do
 
 def pCall : TP Call := do
   let name ← hex
-  let args ← hex
+  let args ← cbytes
   pure ⟨name, args, 0⟩
 
 def pEntry : TP (Bytes × List Call) := do
-  let k ← hex
+  let k ← cbytes
   let cs ← listOf pCall
   pure (k, cs)
 
@@ -53,49 +83,49 @@ def lookup (tbl : List (Bytes × List Call)) (s : Bytes) : List Call :=
 def b01 (b : Bool) : String := if b then "1" else "0"
 def optHex : Option Bytes → String
   | none => "-"
-  | some b => hexOrDash b
+  | some b => hexL b
 
 def showInfo (m : Info) : String :=
-  s!"m{b01 m.named}:d{b01 m.done}:{hexOrDash m.reason}:{m.pec}:{m.ec}"
+  s!"m{b01 m.named}:d{b01 m.done}:{hexL m.reason}:{m.pec}:{m.ec}"
 
 def showCalls (cs : List Call) : String :=
-  if cs.isEmpty then "-" else joinWith "," (cs.map fun c => s!"{hexOrDash c.name}/{hexOrDash c.args}/{c.index}")
+  if cs.isEmpty then "-" else joinWith "," (cs.map fun c => s!"{hexL c.name}/{hexL c.args}/{c.index}")
 
 def showGen (m : GenMsg) : String :=
   let ctx := match m.ctx with | none => "-" | some n => toString n
-  s!"g:{hexOrDash m.resp}:{showInfo m.info}:{ctx}"
+  s!"g:{hexL m.resp}:{showInfo m.info}:{ctx}"
 
 def showChat (m : ChatMsg) : String :=
-  s!"c:{hexOrDash m.content}:{showCalls m.calls}:{showInfo m.info}"
+  s!"c:{hexL m.content}:{showCalls m.calls}:{showInfo m.info}"
 
 def showItem {α : Type} (f : α → String) : Item α → String
   | .msg m => f m
-  | .err e => s!"e:{hexOrDash e}"
+  | .err e => s!"e:{hexL e}"
 
 def showUsage (u : Usage) : String := s!"{u.prompt}/{u.completion}/{u.total}"
 
 def showOa : OaEv → String
-  | .chunk c cs f => s!"k:{hexOrDash c}:{showCalls cs}:{optHex f}"
+  | .chunk c cs f => s!"k:{hexL c}:{showCalls cs}:{optHex f}"
   | .usage u => s!"u:{showUsage u}"
   | .done => "D"
-  | .chat n c cs f u => s!"K:m{b01 n}:{hexOrDash c}:{showCalls cs}:{optHex f}:{showUsage u}"
-  | .tchunk t f u => s!"t:{hexOrDash t}:{optHex f}:{match u with | none => "-" | some u => showUsage u}"
-  | .text t f u => s!"T:{hexOrDash t}:{optHex f}:{showUsage u}"
-  | .error e => s!"E:{hexOrDash e}"
+  | .chat n c cs f u => s!"K:m{b01 n}:{hexL c}:{showCalls cs}:{optHex f}:{showUsage u}"
+  | .tchunk t f u => s!"t:{hexL t}:{optHex f}:{match u with | none => "-" | some u => showUsage u}"
+  | .text t f u => s!"T:{hexL t}:{optHex f}:{showUsage u}"
+  | .error e => s!"E:{hexL e}"
 
 def line (status : Nat) (evs : List String) : String :=
   joinWith " " (toString status :: evs)
 
 def showOnce {α : Type} (f : α → String) : Except Bytes α → String
   | .ok m => line 200 [f m]
-  | .error e => line 500 [s!"e:{hexOrDash e}"]
+  | .error e => line 500 [s!"e:{hexL e}"]
 
 def oaStatus : OaEv → Nat
   | .error _ => 500
   | _ => 200
 
 def showClient {α : Type} (f : α → String) (v : List α × Option Bytes) : String :=
-  joinWith " " (v.1.map f ++ [";", match v.2 with | none => "ok" | some e => s!"err:{hexOrDash e}"])
+  joinWith " " (v.1.map f ++ [";", match v.2 with | none => "ok" | some e => s!"err:{hexL e}"])
 
 def onceAsItems {α : Type} : Except Bytes α → List (Item α)
   | .ok m => [.msg m]
@@ -113,7 +143,7 @@ def pFault : TP Fault := do
 
 def showStreamH {α : Type} (f : α → String) : Except Bytes (List (Item α)) → String
   | .ok items => line 200 (items.map (showItem f))
-  | .error e => line 500 [s!"e:{hexOrDash e}"]
+  | .error e => line 500 [s!"e:{hexL e}"]
 
 def showOaStreamH : Except Bytes (List OaEv) → String
   | .ok evs => line 200 (evs.map showOa)
@@ -144,6 +174,12 @@ def handle (toks : List String) : Option String :=
       let cs ← listOf pChunk
       let tbl ← listOf pEntry
       let parse := lookup tbl
+      -- api.Client view only: the scanner limit and the wire length of every line the client was given
+      let climit ← nat
+      let lens ← listOf nat
+      let fixC := variant / 16 % 2 == 1
+      let withLens {α : Type} (items : List (Item α)) : List (Item α × Nat) :=
+        items.zip (lens ++ List.replicate items.length 0)
       match ep with
       | "gen" =>
         pure (if stream then showStreamH showGen (generateStreamH v f raw hasCtx pl cs e)
@@ -158,11 +194,11 @@ def handle (toks : List String) : Option String :=
         pure (if stream then showOaStreamH (oaCmplStreamH v usage (generateStreamH v f false hasCtx pl cs e))
               else let ev := oaCmplOnce (generateOnceH v f false hasCtx pl cs e); line (oaStatus ev) [showOa ev])
       | "cgen" =>
-        pure (showClient showGen (clientView (if stream then streamAsItems (generateStreamH v f raw hasCtx pl cs e)
-                                              else onceAsItems (generateOnceH v f raw hasCtx pl cs e))))
+        pure (showClient showGen (clientViewL climit fixC (withLens (if stream then streamAsItems (generateStreamH v f raw hasCtx pl cs e)
+                                              else onceAsItems (generateOnceH v f raw hasCtx pl cs e)))))
       | "cchat" =>
-        pure (showClient showChat (clientView (if stream then streamAsItems (chatStreamH v f parse tools hasCtx cs e)
-                                               else onceAsItems (chatOnceH v f parse tools hasCtx cs e))))
+        pure (showClient showChat (clientViewL climit fixC (withLens (if stream then streamAsItems (chatStreamH v f parse tools hasCtx cs e)
+                                               else onceAsItems (chatOnceH v f parse tools hasCtx cs e)))))
       | _ => failure) rest
   | _ => none
 
